@@ -922,7 +922,7 @@ func shorten(s string, n int) string {
 var ruleC4 = &Rule{
 	ID:    "C4",
 	Floor: 3,
-	Doc: "payload-type tags: the set of constants passed to withPayloadType by the span decoders (writer) equals the set of case constants of the payload-type switch in the trace read path (reader/service (*TempoService).OutputQuery); " +
+	Doc: "payload-type tags: the set of constants passed to withPayloadType by the span decoders (writer) equals the set of case constants of the payload-type switch in the trace read path (the switch over the stored payload type in the live code of reader/service, in the row loop or a helper); " +
 		"the Zipkin-JSON tag is dispatched to the JSON parser and the OTLP tag to the protobuf parser; the ids are written and sliced with the widths 16 / 8 of the schema",
 	Run: func(c *Ctx) []Obl {
 		var obls []Obl
@@ -973,10 +973,23 @@ var ruleC4 = &Rule{
 				})
 			}
 		}
-		// reader switch
-		p, fd := c.FuncDecl("reader/service", "(*TempoService).OutputQuery")
+		// reader switch: the switch over a payload-type value with integer constant cases, wherever it lives in reader/service
+		// (the row loop itself or a helper it calls)
+		var p *packagesPackage
+		var fd *ast.FuncDecl
+		for _, cfi := range c.Funcs(c.PkgsUnder("reader/service")) {
+			if isTestFile(c, cfi.Decl) || !c.LiveFunc(cfi) {
+				continue
+			}
+			ast.Inspect(cfi.Decl.Body, func(n ast.Node) bool {
+				if sw, ok := n.(*ast.SwitchStmt); ok && sw.Tag != nil && strings.Contains(strings.ToLower(c.normText(sw.Tag)), "payloadtype") && fd == nil {
+					p, fd = cfi.Pkg, cfi.Decl
+				}
+				return true
+			})
+		}
 		if fd == nil {
-			return []Obl{{Key: "reader/service.(*TempoService).OutputQuery", Pos: "-", Status: Undecided, Msg: "anchor not found"}}
+			return []Obl{{Key: "reader/service payload-type switch", Pos: "-", Status: Undecided, Msg: "no switch over the payload type found in the live code of reader/service"}}
 		}
 		info := p.TypesInfo
 		read := map[string]string{}
